@@ -22,7 +22,7 @@ RULE = ("the nine shipped tables and random custom tables (3-40 strictly ascendi
         "additionally 40 points per interval against the linear interpolant and a golden snapshot before/after library "
         "use; a case = (table, BC); non-trivial for every table (custom tables are all distinct)")
 MUST_OBSERVE = ["tables_checked", "shipped_tables_checked", "custom_tables_checked", "node_queries", "midpoint_side_queries",
-                "beyond_table_queries", "first_interval_queries", "linear_band_points", "golden_comparisons",
+                "beyond_table_queries", "first_interval_queries", "tables_not_starting_at_mach0", "below_table_queries", "linear_band_points", "golden_comparisons",
                 "constant_checks"]
 ASSUMPTIONS = ["golden snapshot vf/golden/drag_tables.json (taken from the pinned commit; spot values agree with the published "
                "G1/G7) is the trusted statement of 'the published tables'",
@@ -104,7 +104,7 @@ def queries(rng, tab, thorough):
     last = tab[-1][0]
     qs += [("beyond", last * 1.1), ("beyond", last + 3.0), ("beyond", last + rng.uniform(0, 1))]
     if tab[0][0] > 0:
-        qs += [("below", tab[0][0] / 2)]
+        qs += [("below", tab[0][0] / 2), ("below", tab[0][0] * 0.99), ("below", math.nextafter(tab[0][0], -math.inf))]
     return [(k, q) for k, q in qs if q >= 0]
 
 
@@ -121,6 +121,8 @@ def check_table(ctx, case, thorough):
     bc = case["bc"]
     ctx.count("tables_checked")
     ctx.count("shipped_tables_checked" if shipped else "custom_tables_checked")
+    if tab[0][0] > 0:
+        ctx.count("tables_not_starting_at_mach0")
     ctx.case(case, nontrivial=True, sample=not shipped)
     if [(p.Mach, p.CD) for p in calc.cdm] != list(tab):
         ctx.violation("cdm-table", "Calculator.cdm differs from the table given", case)
@@ -140,6 +142,8 @@ def check_table(ctx, case, thorough):
                   .get(kind, "other_queries"))
         if tab[0][0] <= q <= tab[1][0]:
             ctx.count("first_interval_queries")
+        if q < tab[0][0]:
+            ctx.count("below_table_queries")
         ok = False
         best = None
         for name, val, amp in cands:
